@@ -10,8 +10,8 @@
 * `remove_reserved_words(language)` is a set difference with the keyword file of the
   language: **case-sensitive**, `removeReserved`.  `removeReservedFixed` is the proposed repair
   (`fixes/C05-reserved-words.diff`): a word goes if it equals a keyword up to case.
-  `removeReservedCurrent` is THE switch: it names the variant the code currently implements;
-  the correspondence check and `Props/C05.identifier_not_reserved` are stated about it.
+  `codeIsFixed` is THE switch: `removeReservedCurrent` names the variant the code currently
+  implements; the correspondence check and `Props/C05.identifier_not_reserved` are stated about it.
 * `gen_identifier(None | 'lower' | 'capitalize')` is `word()`, `word().lower()`,
   `word().capitalize()`.  `lower`/`capitalize` model `str.lower`/`str.capitalize` on ASCII
   (`Char.toLower`/`Char.toUpper`); the word file is pure `[a-z]+` (checked by
@@ -71,9 +71,19 @@ def removeReserved (pool kw : List String) : List String := pool.filter fun w =>
 def removeReservedFixed (pool kw : List String) : List String :=
   pool.filter fun w => !(kw.map lower).contains (lower w)
 
-/-- **the switch**: the variant the code under test implements.  After applying
-    `fixes/C05-reserved-words.diff` to `/repo` change the right-hand side to `removeReservedFixed`. -/
-def removeReservedCurrent : List String → List String → List String := removeReserved
+/-- both variants under one name -/
+def removeReservedVariant (fixed : Bool) : List String → List String → List String :=
+  if fixed then removeReservedFixed else removeReserved
+
+/-- **THE SWITCH** (the only definition to change): does the code under test implement the repaired
+    removal?  `false` = `/repo` as it is (case-sensitive set difference).  After applying
+    `fixes/C05-reserved-words.diff` to `/repo` set it to `true`: the correspondence check
+    (`check_C05`, stream "pool") then matches the repaired code, and
+    `Props/C05.identifier_not_reserved_status` turns into the statement that the full property holds. -/
+def codeIsFixed : Bool := false
+
+/-- the variant the code under test implements -/
+def removeReservedCurrent : List String → List String → List String := removeReservedVariant codeIsFixed
 
 /-- `remove_reserved_words(language)` with the keyword set `kw` of the language -/
 def Pool.removeReservedWords (p : Pool) (kw : List String) : Pool :=
